@@ -143,14 +143,20 @@ class Host:
         self.ip = ip
         self.port = 5353
         self.zc = None
-        self.transport = None
+        self.transport = None     # the respond (sending) socket's transport
+        self.ltransport = None    # the dedicated listen socket's transport, when the host has one
+        self.transports = []
+        self.sock = None
+        self.lsock = None
         sim.net.hosts.append(self)
 
     def deliver(self, data, src):
-        """hand a datagram to the instance's listener, as the selector would"""
-        if self.transport is None or self.transport.closed:
+        """hand a datagram to the instance's listener, as the selector would: on the dedicated listen
+        socket when the host has one (the default, non-unicast configuration), else on the respond socket"""
+        t = self.ltransport if self.ltransport is not None else self.transport
+        if t is None or t.closed:
             return
-        self.transport.protocol.datagram_received(data, src)
+        t.protocol.datagram_received(data, src)
 
     def inject(self, data, src_ip="10.9.9.9", src_port=5353):
         self.deliver(bytes(data), (src_ip, src_port))
@@ -163,7 +169,11 @@ async def _cde(self, protocol_factory, sock=None, **kw):
     host = _sock_host[id(sock)]
     proto = protocol_factory()
     tr = FakeTransport(host, sock, proto)
-    host.transport = tr
+    host.transports.append(tr)
+    if sock is host.lsock:
+        host.ltransport = tr
+    else:
+        host.transport = tr
     proto.connection_made(tr)
     return tr, proto
 
@@ -264,17 +274,24 @@ class Sim:
         return v
 
     # ---- hosts
-    def make_host(self, name, ip, **zc_kwargs):
+    def make_host(self, name, ip, listen_socket=False, **zc_kwargs):
+        """listen_socket=True gives the host a dedicated listen socket besides its respond socket, as
+        `create_sockets` does unless unicast=True (readers = [listen, respond], senders = [respond])"""
         from zeroconf import Zeroconf
         import zeroconf._core as core
 
         host = Host(self, name, ip)
-        sock = FakeSock(10 + len(self.net.hosts), (ip, 5353))
+        sock = FakeSock(10 + 2 * len(self.net.hosts), (ip, 5353))
         _sock_host[id(sock)] = host
-        with mock.patch.object(core, "create_sockets", lambda *a, **k: (None, [sock])):
+        host.sock = sock
+        lsock = None
+        if listen_socket:
+            lsock = FakeSock(11 + 2 * len(self.net.hosts), ("0.0.0.0", 5353))
+            _sock_host[id(lsock)] = host
+            host.lsock = lsock
+        with mock.patch.object(core, "create_sockets", lambda *a, **k: (lsock, [sock])):
             zc = Zeroconf(interfaces=[ip], **zc_kwargs)
         host.zc = zc
-        host.sock = sock
         return host
 
     # ---- run
